@@ -86,6 +86,14 @@ BNOTES = {
     "B01/9": "kept: the range construction of quads_matching moved into a generic helper function (`prefix_range` built with array::from_fn); the role "
              "analysis of R1.2 is intra-procedural and fails closed - the residual risk documented in §10",
     "B12/10": "kept: an audited indexing site moved from a closure into its enclosing function (`for` loop instead of filter_map): a new audit key, by design",
+    "B08/9": "kept, same class as B09/7: the unchecked construction of `model::datatype`, a *known finding*, moved into a private helper "
+             "(`explicit_datatype`) and is reported under its new location (C18's R18.4, \"the datatype passes through unchanged\", sees the helper as a transformation for the same reason)",
+    "B12/13": "kept, same class as B12/10: the audited `gs_id[*iparent]` of the `compound_literals.retain` closure moved from an `is_some_and` closure into a "
+              "`match` of the enclosing closure: a new audit key (the origin descriptor is part of the key), by design",
+    "B12/15": "kept, same class as B12/10: the audited `gs_id[iparent]` of `jsonify` moved into a helper closure",
+    "B15/12": "kept, same class as B01/9: the `match` around `rio_format_triples` and both `finish()` calls moved into a private helper function "
+              "(`close_document`); R15.14 and C18's pairing rule are intra-procedural and fail closed (the formatter's `finish` is no longer in the function that "
+              "feeds it)",
     "B09/7": "kept, and not a false alarm about the code: a *known finding* (the unwrap of the resolver's Result) moved into a helper function and is "
              "reported under its new location - known findings are suppressed by exact key only",
 }
@@ -109,7 +117,8 @@ behaviour, names and signatures and to make the edits a maintainer makes all the
 repository's suite green (recorded in its `meta.json`).  `tools/run_benign.py` applies each one to a scratch
 worktree of the repaired tree and runs **all** registered checks: a new violation key is a false alarm.
 The first batch (95) consists of free refactorings of the anchor files; the second (45, k = 6..10) was written inside the functions
-the hunt-round rules look at, with shape-changing edits (§6).
+the hunt-round rules look at, with shape-changing edits (§6); the third (25, `"round": 3`) inside the functions of the rules written after the second and
+third hunts.
 Current result: %d of %d raise an alarm (explained in the table).  Of the first batch, thirteen variants raised one at some point; each was corrected by generalising
 the idiom the rule recognises, never by loosening the rule: a kind predicate spelled `==` instead of `matches!` (C12,
 now decided per kind by `kind_predicate`); `?` replaced by `match .. Ok(true)/Ok(false)/Err` (C01 R1.7, C09
